@@ -1,5 +1,6 @@
 import S3V.Thm.EvStream
 import S3V.Thm.EvStreamXml
+import S3V.Thm.EvStreamTrunc
 /-!
 # C15 — SelectObjectContent events are framed as valid AWS event-stream messages (property theorems only)
 
@@ -200,6 +201,64 @@ theorem C15_error_text_truncation (s : Bytes) :
   ⟨truncateHeaderValue_eq_self s, truncateHeaderValue_length_le s, truncateHeaderValue_prefix s,
     truncateHeaderValue_boundary s⟩
 
+/-- `str::is_char_boundary` means what its name says: for a text that is well-formed UTF-8 (every Rust `&str`)
+    the prefix of `k` bytes is well-formed UTF-8 exactly when `k` is a character boundary (the model's one-byte
+    test "not a continuation byte", `0` and `len` included) -/
+theorem C15_prefix_valid_iff_char_boundary (s : Bytes) (hs : utf8Valid s = true) (k : Nat) (hk : k ≤ s.length) :
+    utf8Valid (s.take k) = true ↔ isCharBoundary s k = true :=
+  utf8Valid_take_iff_boundary hs k hk
+
+/-- the `while !s.is_char_boundary(end) { end -= 1 }` loop started at `n` stops at the largest character
+    boundary `≤ n` (any byte string), and in well-formed UTF-8 it steps back at most 3 bytes -/
+theorem C15_cut_end_is_largest_boundary (s : Bytes) (n : Nat) :
+    truncEnd s n ≤ n ∧ isCharBoundary s (truncEnd s n) = true ∧
+    (∀ k, k ≤ n → isCharBoundary s k = true → k ≤ truncEnd s n) ∧
+    (utf8Valid s = true → n ≤ s.length → n ≤ truncEnd s n + 3) :=
+  ⟨truncEnd_le s n, truncEnd_boundary s n, truncEnd_max s n, fun hs hn => truncEnd_near hs n hn⟩
+
+/-- MAIN (cut): for every error text that is well-formed UTF-8 — no bound on its length — what
+    `truncate_header_value` keeps is a prefix of at most 65 535 bytes, is well-formed UTF-8, and every longer
+    prefix of the text of at most 65 535 bytes is NOT well-formed UTF-8 -/
+theorem C15_error_text_is_longest_valid_prefix (s : Bytes) (hs : utf8Valid s = true) :
+    truncateHeaderValue s <+: s ∧ (truncateHeaderValue s).length ≤ 65535 ∧
+    utf8Valid (truncateHeaderValue s) = true ∧
+    ∀ p : Bytes, p <+: s → p.length ≤ 65535 → (truncateHeaderValue s).length < p.length → utf8Valid p = false :=
+  ⟨truncateTo_prefix 65535 s, truncateTo_length_le 65535 s, truncateTo_valid 65535 hs,
+    fun p hp hpn hlt => truncateTo_maximal 65535 hs p hp hpn hlt⟩
+
+/-- … which is the spec's declarative demand `IsLongestValidPrefix`, and that demand has no other answer -/
+theorem C15_error_text_meets_spec_uniquely (s t : Bytes) (hs : utf8Valid s = true) :
+    IsLongestValidPrefix maxHeaderValue s t ↔ t = truncateHeaderValue s :=
+  ⟨fun h => isLongestValidPrefix_unique h (truncateTo_isLongest 65535 hs), fun h => h ▸ truncateTo_isLongest 65535 hs⟩
+
+/-- the executable spec the driver judges with (`expectedHeaderText`: unchanged if it fits, else the first
+    well-formed one of the prefixes of 65 535 … 65 532 bytes) equals `truncate_header_value` on every
+    well-formed text — what was only compared case by case is a theorem -/
+theorem C15_truncation_eq_spec (s : Bytes) (hs : utf8Valid s = true) :
+    expectedHeaderText s = some (truncateHeaderValue s) :=
+  expectedTextN_eq_truncateTo 65535 (by decide) hs
+
+/-- non-vacuity, with the limit 5 in place of 65 535 (same lemmas, `truncateTo n` / `expectedTextN n`; the theorems
+    above are their instances at 65 535): `ab😀c` is well-formed; a 4-byte character straddles byte 5, the cut
+    steps back 3 bytes to `ab`, the three longer prefixes within the limit are not well-formed, and the spec's
+    candidate search finds the same; a 3-byte and a 2-byte character straddling the limit likewise -/
+example : utf8Valid [97, 98, 0xF0, 0x9F, 0x98, 0x80, 99] = true ∧
+    truncateTo 5 [97, 98, 0xF0, 0x9F, 0x98, 0x80, 99] = [97, 98] ∧
+    utf8Valid [97, 98, 0xF0] = false ∧ utf8Valid [97, 98, 0xF0, 0x9F] = false ∧
+    utf8Valid [97, 98, 0xF0, 0x9F, 0x98] = false ∧
+    expectedTextN 5 [97, 98, 0xF0, 0x9F, 0x98, 0x80, 99] = some [97, 98] := by decide
+example : utf8Valid [97, 98, 99, 0xE2, 0x82, 0xAC, 100] = true ∧
+    truncateTo 5 [97, 98, 99, 0xE2, 0x82, 0xAC, 100] = [97, 98, 99] ∧
+    expectedTextN 5 [97, 98, 99, 0xE2, 0x82, 0xAC, 100] = some [97, 98, 99] := by decide
+example : utf8Valid [97, 98, 99, 100, 0xC3, 0xA9, 101] = true ∧
+    truncateTo 5 [97, 98, 99, 100, 0xC3, 0xA9, 101] = [97, 98, 99, 100] ∧
+    truncateTo 6 [97, 98, 99, 100, 0xC3, 0xA9, 101] = [97, 98, 99, 100, 0xC3, 0xA9] := by decide
+example : expectedTextN 5 [97, 98, 0xF0, 0x9F, 0x98, 0x80, 99] = some (truncateTo 5 [97, 98, 0xF0, 0x9F, 0x98, 0x80, 99]) :=
+  expectedTextN_eq_truncateTo 5 (by decide) (by decide)
+/-- the hypothesis matters: on text that is not UTF-8 (never a `&str`) the one-byte test and the decoder part -/
+example : truncateTo 5 [97, 98, 99, 100, 0xFF, 0xFF] = [97, 98, 99, 100, 0xFF] ∧
+    expectedTextN 5 [97, 98, 99, 100, 0xFF, 0xFF] = some [97, 98, 99, 100] := by decide
+
 /-- FULL (since f8c01e3): every `Err(S3Error)` item is framed, whatever its code and message -/
 theorem C15_error_always_framed (crc32 : Bytes → Nat) (e : S3Err) :
     ∃ b, eventIntoBytes crc32 (.error e) = .ok b := by
@@ -223,6 +282,28 @@ theorem C15_error_recovered (crc32 : Bytes → Nat) (e : S3Err) (b rest : Bytes)
     ∃ dm, decodeFrame crc32 (b ++ rest) = some (dm, rest) ∧
       interpret dm = some (.error (truncateHeaderValue e.code) ((e.message.map truncateHeaderValue).getD [])) :=
   ⟨_, C15_decode_of_serialize_ok crc32 _ b rest h, interpret_item (.error e)⟩
+
+/-- … and that text is the spec's: for an error whose code and message are well-formed UTF-8 (they are `&str` /
+    `String` in Rust) of ANY length, the reader recovers exactly `expectedHeaderText` of the code and of the
+    message — the condition `sameEvent` of the driver's judge, proved for the model -/
+theorem C15_error_recovered_is_spec_cut (crc32 : Bytes → Nat) (e : S3Err) (b rest : Bytes)
+    (hc : utf8Valid e.code = true) (hm : utf8Valid (e.message.getD []) = true)
+    (h : eventIntoBytes crc32 (.error e) = .ok b) :
+    ∃ dm c m, decodeFrame crc32 (b ++ rest) = some (dm, rest) ∧ interpret dm = some (.error c m) ∧
+      expectedHeaderText e.code = some c ∧ expectedHeaderText (e.message.getD []) = some m ∧
+      IsLongestValidPrefix maxHeaderValue e.code c ∧ IsLongestValidPrefix maxHeaderValue (e.message.getD []) m := by
+  obtain ⟨dm, h1, h2⟩ := C15_error_recovered crc32 e b rest h
+  have hmsg : (e.message.map truncateHeaderValue).getD [] = truncateHeaderValue (e.message.getD []) := by
+    cases e.message with
+    | none => rfl
+    | some m => rfl
+  rw [hmsg] at h2
+  exact ⟨dm, _, _, h1, h2, C15_truncation_eq_spec _ hc, C15_truncation_eq_spec _ hm,
+    truncateTo_isLongest 65535 hc, truncateTo_isLongest 65535 hm⟩
+
+/-- non-vacuity: an error with a non-ASCII message meets the hypotheses (`Bad` / `né`) -/
+example : utf8Valid (S3Err.mk [66, 97, 100] (some [110, 0xC3, 0xA9])).code = true ∧
+    utf8Valid ((S3Err.mk [66, 97, 100] (some [110, 0xC3, 0xA9])).message.getD []) = true := by decide
 
 /-- … hence unchanged code and message whenever both fit a string header -/
 theorem C15_error_recovered_unchanged (crc32 : Bytes → Nat) (e : S3Err) (b rest : Bytes)
